@@ -68,14 +68,29 @@ def indx_cases(draw, max_entries=40, max_rowids=50):
     rl = rowid_lists(max_rowids)
     rowids = draw(st.lists(rl, min_size=len(coords), max_size=len(coords)))
     return {"common": common, "arity": arity,
-            "entries": [[list(c), r] for c, r in zip(coords, rowids)]}
+            "entries": [[list(c), r] for c, r in zip(coords, rowids)],
+            "layout": draw(st.sampled_from(["plain", "plain", "plain", "strided", "readonly", "reversed_keys"]))}
 
 
 def case_entries(case):
     """dict {coords tuple: uint32 array} in case order, as a caller would pass to save()."""
     import numpy
 
-    return {tuple(c): numpy.array(r, dtype=numpy.uint32) for c, r in case["entries"]}
+    layout = case.get("layout", "plain")
+    out = {}
+    for c, r in case["entries"]:
+        a = numpy.array(r, dtype=numpy.uint32)
+        if layout == "strided":
+            # a legal non-contiguous uint32 view (a column of a 2-D table, arr[::2], ...)
+            big = numpy.full(2 * len(a) + 1, 0xDEADBEEF, dtype=numpy.uint32)
+            big[1::2][: len(a)] = a
+            a = big[1::2][: len(a)]
+        elif layout == "readonly":
+            a.setflags(write=False)
+        out[tuple(c)] = a
+    if layout == "reversed_keys":
+        out = dict(reversed(list(out.items())))
+    return out
 
 
 def case_list(case):
